@@ -240,3 +240,135 @@ Section ValueComplete.
         apply IHt; auto.
   Qed.
 End ValueComplete.
+
+(** * check_arguments is complete for the argument rules *)
+From V Require Import C03.Proofs3.
+
+Section ArgsComplete.
+  Variable S : tsdoc.
+  Variable vars : option vardefs.
+  Hypothesis Hwf : schema_wf S = true.
+  Hypothesis Hclosed : input_types_closed S = true.
+
+  Lemma flat_map_all_nil {A B} (f : A -> list B) l : (forall x, In x l -> f x = []) -> flat_map f l = [].
+  Proof.
+    induction l as [|a l IH]; intros H; [reflexivity|]. cbn [flat_map].
+    rewrite (H a (or_introl eq_refl)). apply IH. intros x Hx. apply H. right. exact Hx.
+  Qed.
+
+  Theorem check_arguments_complete ppos pname kind args defs :
+    (forall d, In d defs -> resolves S (iv_type d) = true) ->
+    (forall a, args = Some a -> args_list a <> []) ->
+    args_defined_ok (provided args, defs) = true ->
+    required_args_ok (provided args, defs) = true ->
+    literal_types_vis S (provided args, defs) = true ->
+    Forall (use_strict vars) (args_var_uses false S (provided args) defs) ->
+    check_arguments S vars ppos pname kind args defs = [].
+  Proof.
+    intros Hres Hne Hdef Hreq Hlit Huses. unfold check_arguments.
+    assert (Hmain : forall apos,
+      (let st := fold_left (arg_step S vars apos (provided args)) defs ([], 0) in
+       fst st ++ (if Nat.ltb (snd st) (length (provided args)) then
+                    flat_map (fun kv => if forallb (fun ad => negb (str_eqb (iname (iv_name ad)) (iname (fst kv)))) defs
+                                        then [err0 (UnknownArgument (iname (fst kv))) (ipos (fst kv))] else []) (provided args)
+                  else [])) = []).
+    { intros apos. cbn zeta. rewrite arg_fold. cbn [fst snd app Nat.add].
+      assert (H1 : flat_map (ad_errs S vars apos (provided args)) defs = []).
+      { apply flat_map_all_nil. intros ad Hin. unfold ad_errs, arg_step.
+        unfold required_args_ok in Hreq. cbn [fst snd] in Hreq. rewrite forallb_forall in Hreq. specialize (Hreq ad Hin).
+        unfold literal_types_vis in Hlit. cbn [fst snd] in Hlit. rewrite forallb_forall in Hlit. specialize (Hlit ad Hin).
+        unfold args_var_uses in Huses. pose proof (Forall_flat_map_inv _ _ _ Huses ad Hin) as Hu.
+        unfold arg_for in *.
+        destruct (find (fun kv => str_eqb (iname (iv_name ad)) (iname (fst kv))) (provided args)) as [kv|] eqn:Ef.
+        - cbn [fst app]. apply (check_value_complete S vars Hwf Hclosed _ _ (has_default ad)); auto.
+        - apply find_arg_none in Ef. unfold arg_keys in Ef. rewrite Ef, orb_false_r in Hreq.
+          rewrite required_input_eq in Hreq.
+          destruct (ty_is_nonnull (iv_type ad)); cbn [negb andb] in *; [|reflexivity].
+          destruct (iv_default ad); cbn in *; [reflexivity | discriminate]. }
+      rewrite H1. cbn [app].
+      destruct (Nat.ltb _ (length (provided args))); [|reflexivity].
+      apply flat_map_all_nil. intros kv Hin.
+      unfold args_defined_ok in Hdef. cbn [fst snd] in Hdef. rewrite forallb_forall in Hdef. specialize (Hdef kv Hin).
+      apply mem_In, in_map_iff in Hdef as [ad [Hn Hadin]].
+      assert (E : forallb (fun ad0 => negb (str_eqb (iname (iv_name ad0)) (iname (fst kv)))) defs = false).
+      { clear -Hn Hadin. induction defs as [|x l IH]; [contradiction|]. cbn [forallb].
+        destruct Hadin as [->|Hin]; [rewrite Hn, str_eqb_refl; reflexivity | rewrite (IH Hin); apply andb_false_r]. }
+      rewrite E. reflexivity. }
+    destruct args as [a|]; destruct defs as [|d0 defs0].
+    - exfalso. apply (Hne a eq_refl). unfold args_defined_ok in Hdef. cbn [fst snd provided] in Hdef.
+      destruct (args_list a) as [|kv r]; [reflexivity|]. cbn in Hdef. discriminate.
+    - apply (Hmain (args_pos a)).
+    - reflexivity.
+    - apply (Hmain ppos).
+  Qed.
+End ArgsComplete.
+
+(** * check_directives is complete for the directive rules *)
+Section DirsComplete.
+  Variable S : tsdoc.
+  Variable vars : option vardefs.
+  Hypothesis Hwf : schema_wf S = true.
+  Hypothesis Hclosed : input_types_closed S = true.
+
+  (** what the specification asks of one directive application at location [loc] *)
+  Definition directive_fine (loc : str) (d : directive) : Prop :=
+    exists dd, sp_directive S (iname (dir_name d)) = Some dd
+      /\ mem loc (names_of (dd_locs dd)) = true
+      /\ (forall x, In x (dir_argdefs dd) -> resolves S (iv_type x) = true)
+      /\ (forall a, dir_args d = Some a -> args_list a <> [])
+      /\ args_defined_ok (provided (dir_args d), dir_argdefs dd) = true
+      /\ required_args_ok (provided (dir_args d), dir_argdefs dd) = true
+      /\ literal_types_vis S (provided (dir_args d), dir_argdefs dd) = true
+      /\ Forall (use_strict vars) (args_var_uses false S (provided (dir_args d)) (dir_argdefs dd)).
+
+  Lemma check_directives_from_complete loc : forall ds seen,
+    (forall d, In d ds -> directive_fine loc d) ->
+    nodup_str (nonrep S ds) = true ->
+    (forall n, In n (nonrep S ds) -> mem n seen = false) ->
+    check_directives_from S vars seen loc ds = [].
+  Proof.
+    induction ds as [|d ds IH]; intros seen Hall Hnd Hseen; [reflexivity|].
+    cbn [check_directives_from]. cbn zeta.
+    destruct (Hall d (or_introl eq_refl)) as [dd [Esp [Hloc [Hres [Hne [A1 [A2 [A3 A4]]]]]]]].
+    rewrite get_directive_sp, Esp.
+    cbn [nonrep flat_map] in Hnd, Hseen. rewrite Esp in Hnd, Hseen. fold (nonrep S ds) in Hnd, Hseen.
+    assert (E1 : forallb (fun l => negb (str_eqb (iname l) loc)) (dd_locs dd) = false).
+    { clear -Hloc. unfold names_of in Hloc. induction (dd_locs dd) as [|l ls IHl]; [discriminate|].
+      cbn [forallb map] in *. rewrite mem_cons, (str_eqb_sym loc) in Hloc.
+      destruct (str_eqb (iname l) loc); cbn [negb andb orb] in *; [reflexivity | apply IHl, Hloc]. }
+    rewrite E1. cbn [app].
+    rewrite (check_arguments_complete S vars Hwf Hclosed (dir_pos d) (iname (dir_name d)) str_directive
+               (dir_args d) (dd_argdefs dd) Hres Hne A1 A2 A3 A4). cbn [app].
+    destruct (dd_repeatable dd) as [r|] eqn:Er.
+    - (* repeatable *)
+      cbn [app] in Hnd, Hseen.
+      assert (E2 : (if mem_str (iname (dir_name d)) seen then [] else []) = @nil err) by (destruct (mem_str _ seen); reflexivity).
+      rewrite E2. cbn [app].
+      apply IH; [intros x Hx; apply Hall; right; exact Hx | exact Hnd |].
+      intros n Hn. specialize (Hseen n Hn).
+      destruct (mem_str (iname (dir_name d)) seen); [exact Hseen|].
+      rewrite mem_app. cbn [mem existsb]. rewrite Hseen. cbn [orb]. rewrite orb_false_r.
+      destruct (str_eqb_spec n (iname (dir_name d))) as [E|E]; [|reflexivity].
+      (* a repeatable directive is not in nonrep: n would be non-repeatable and equal to d's name *)
+      exfalso. subst n. unfold nonrep in Hn. apply in_flat_map in Hn as [d' [Hd' Hn]].
+      destruct (sp_directive S (iname (dir_name d'))) as [dd'|] eqn:E'; [|contradiction].
+      destruct (dd_repeatable dd') eqn:Er'; [contradiction|]. destruct Hn as [Hn|[]].
+      rewrite Hn in E'. rewrite Esp in E'. injection E' as <-. congruence.
+    - (* not repeatable *)
+      cbn [app nodup_str] in Hnd. apply andb_true_iff in Hnd as [Hnotin Hnd].
+      assert (Hs : mem_str (iname (dir_name d)) seen = false) by (apply Hseen; left; reflexivity).
+      rewrite Hs. cbn [app].
+      apply IH; [intros x Hx; apply Hall; right; exact Hx | exact Hnd |].
+      intros n Hn. rewrite mem_app. cbn [mem existsb]. rewrite (Hseen n (or_intror Hn)). cbn [orb]. rewrite orb_false_r.
+      destruct (str_eqb_spec n (iname (dir_name d))) as [E|E]; [|reflexivity].
+      subst n. apply mem_In in Hn. rewrite Hn in Hnotin. discriminate.
+  Qed.
+
+  Theorem check_directives_complete loc ds :
+    (forall d, In d ds -> directive_fine loc d) ->
+    nodup_str (nonrep S ds) = true ->
+    check_directives S vars loc ds = [].
+  Proof.
+    intros Hall Hnd. unfold check_directives. apply check_directives_from_complete; auto.
+  Qed.
+End DirsComplete.
